@@ -71,10 +71,15 @@ def fresh_report(root: Path):
     return normalise(json.loads(ReportWriter(Report(cb, Configuration.repository)).to_json()))
 
 
-def run_scan(root: Path):
+def run_scan(root: Path, verbose=False):
     from codelimit.commands.scan import scan_command
 
     with harness.cwd(root):
+        if verbose:
+            # `codelimit scan --verbose` as the command line runs it: options, configuration file, logging at INFO, repository detection
+            import codelimit.__main__ as cli
+
+            return harness.run_cli_function(cli.scan, path=Path("."), exclude=None, verbose=True)
         return harness.run_cli_function(scan_command, Path("."))
 
 
@@ -239,9 +244,11 @@ def check_recovery(root: Path, sig, what):
     from codelimit.common.report.ReportWriter import ReportWriter
 
     out = []
-    code, text, exc = run_scan(root)
+    verbose = core.digest(what) % 2 == 1  # every other recovery runs through the verbose command-line entry
+    code, text, exc = run_scan(root, verbose)
+    harness.reset_globals()
     if exc is not None or code not in (None, 0):
-        out.append(("scan-fails-after-fault", dict(sig, error=type(exc).__name__ if exc else f"exit-{code}"), f"{what}: {exc!r}"))
+        out.append(("scan-fails-after-fault", dict(sig, error=type(exc).__name__ if exc else f"exit-{code}", **({"verbose": True} if verbose else {})), f"{what}: {exc!r}"))
         return out
     cache = root / ".codelimit_cache"
     rp = cache / "codelimit.json"
@@ -350,6 +357,11 @@ def structural_faults(doc):
     out = [{"f": "file", "content": ""}, {"f": "file", "content": "  \n"}, {"f": "file", "content": "not json {"},
            {"f": "file", "content": "[]"}, {"f": "file", "content": "null"}, {"f": "file", "content": "{}"}, {"f": "file", "content": "\"x\""},
            {"f": "nofile"}, {"f": "nomarker", "name": "CACHEDIR.TAG"}, {"f": "nomarker", "name": ".gitignore"}, {"f": "nomarkers"}]
+    # an optional section of the document format that a scan of a plain folder never writes: a repository with plausible and with
+    # damaged values (the section must not leak into the new report: the fresh scan of this folder has none)
+    for rep in ({"owner": "o", "name": "n", "branch": "b"}, {"owner": 7, "name": None, "branch": ["x"]}, {"owner": "\ud83d", "name": "n", "branch": "b"},
+                {"owner": "o", "name": "n", "branch": "b", "tag": "t"}):
+        out.append({"f": "retype", "path": ["repository"], "to": rep})
     for path in paths_of(doc):
         parent = get_at(doc, path[:-1])
         if isinstance(parent, dict):
